@@ -661,7 +661,7 @@ func buildField(ww *conversionVisitor, node sourcewalk.FieldNode) (*descriptorpb
 			proto.SetExtension(desc.Options, ext_j5pb.E_Key, entityExt)
 		}
 
-		ww.setJ5Ext(node.Source, desc.Options, "key", st.Key.Ext)
+		keyExt := ww.setJ5Ext(node.Source, desc.Options, "key", st.Key.Ext)
 
 		if st.Key.ListRules != nil {
 			var fkt list_j5pb.IsForeignKeyRules_Type
@@ -717,6 +717,13 @@ func buildField(ww *conversionVisitor, node sourcewalk.FieldNode) (*descriptorpb
 
 			case *schema_j5pb.KeyFormat_Custom_:
 				stringRules.Pattern = &ff.Custom.Pattern
+				// the reader knows a custom key format by the pattern recorded on
+				// the key annotation (the validate pattern alone reads as a string rule)
+				if keyExt != nil {
+					if kk, ok := keyExt.Type.(*ext_j5pb.FieldOptions_Key); ok && kk.Key != nil {
+						kk.Key.Type = &ext_j5pb.KeyField_Pattern{Pattern: ff.Custom.Pattern}
+					}
+				}
 
 			case *schema_j5pb.KeyFormat_Informal_:
 
